@@ -650,7 +650,8 @@ def run_check(prop, tier, seed, scratch, t0, n_override=None):
 
     # failing-input search when only the tie (proof or correspondence) is broken
     searched = 0
-    if (corr_broken or not pf["ok"]) and not concrete and model_ok:
+    known0 = {k.get("signature") for k in load_known() if k.get("property") == prop.id and k.get("status") == "open"}
+    if (corr_broken or not pf["ok"]) and model_ok and not [x for x in concrete if prop.signature(x[0], x[2], x[1]) not in known0]:
         rng2 = random.Random(seed + 1)
         more = list(prop.generate(rng2, "thorough", max(n, 3000)))
         for c0, _, _ in corr_broken[:5]:
@@ -703,7 +704,9 @@ def run_check(prop, tier, seed, scratch, t0, n_override=None):
         n_viol += 1
     if exit_code == 0 and not any(r[0] == "K" for r in reported) or True:
         pass
-    if not concrete and not [f for f in extra_fail] and (corr_broken or not pf["ok"]):
+    known_sigs = {k.get("signature") for k in known}
+    unknown_concrete = [x for x in concrete if prop.signature(x[0], x[2], x[1]) not in known_sigs]
+    if not unknown_concrete and not [f for f in extra_fail] and (corr_broken or not pf["ok"]):
         what = []
         if not pf["ok"]:
             what.append("proof stage: " + str(pf["broken"]))
